@@ -1,5 +1,6 @@
 import WuffsVerif.Common.Line
 import WuffsVerif.Model.Rac.Reader
+import WuffsVerif.Model.Rac.Conc
 /-! Line driver for C14 (lib/rac Reader).  Stateful.  Ops:
   case <id> size=<n> <chunk>*                 -> ok chunks=<k> size=<n> valid=<true|false>   (defines the file)
   open c=<concurrency>                        -> ok      (a fresh Reader on the current file)
@@ -102,6 +103,10 @@ def c14Step (st : DState) (l : List String) : DState × String :=
   | ["open", c] =>
     match (kv "c" c).bind String.toNat? with
     | some conc => ({ st with r := R.init st.file (decide (conc > 1)) }, "ok")
+    | none => (st, "bad-op")
+  | "trace" :: nw :: evs =>
+    match (kv "n" nw).bind String.toNat? with
+    | some n => (st, Conc.traceLine n evs)
     | none => (st, "bad-op")
   | _ =>
     match parseOp l with
